@@ -139,4 +139,28 @@ def clauses (ops : List Op) (trace : List Obs) : List (String × Bool) :=
 
 def holds (ops : List Op) (trace : List Obs) : Bool := (clauses ops trace).all (·.2)
 
+/-! ### acknowledged ⇒ committed, at the API of the consensus component
+
+One observation = one call of LogPin / LogUnpin (and AddPeer / RmPeer, which share the redirect to the
+leader) at some member: what it returned, and whether the operation is in effect on the live peers once
+they are in sync. "An operation acknowledged as committed is part of that sequence: it is visible …":
+a nil return obliges the operation to be in effect on every live peer. -/
+
+inductive Effect where
+  | all | none | mixed
+  deriving DecidableEq, Repr
+
+structure CallObs where
+  /-- the call returned nil -/
+  ok : Bool
+  /-- forwarded requests the leader's RPC endpoint received for it -/
+  forwarded : Nat
+  effect : Effect
+  deriving DecidableEq, Repr
+
+def ackCommittedOk (o : CallObs) : Bool := !o.ok || o.effect == .all
+
+def callClauses (trace : List CallObs) : List (String × Bool) :=
+  [ ("ack_committed", trace.all ackCommittedOk) ]
+
 end CV.C01
